@@ -504,6 +504,20 @@ def filter_map(ex, s, lam):
     reg[str(f)] = (f, lam, k, out_kind)
     r = f(s.t)
     instantiate_fm(ex, f, lam, k, out_kind, s.t)
+    # extensionality: two filter-maps over the same sequence that agree element-wise are equal
+    apps = run.ghost.setdefault('_fm_apps', [])
+    for (f2, lam2, st2, ok2) in apps:
+        if f2.eq(f) or not z3.eq(st2, s.t) or ok2 != out_kind:
+            continue
+        sk = run.fresh(K.Int, 'ext_sk')
+        e = s.t[sk.t]
+        v1, g1 = lam.at(ex, e)
+        v2, g2 = lam2.at(ex, e)
+        g1 = g1 if g1 is not None else z3.BoolVal(True)
+        g2 = g2 if g2 is not None else z3.BoolVal(True)
+        agree = z3.And(g1 == g2, z3.Implies(g1, v1 == v2))
+        run.assume(z3.Or(f(s.t) == f2(s.t), z3.And(sk.t >= 0, sk.t < z3.Length(s.t), z3.Not(agree))))
+    apps.append((f, lam, s.t, out_kind))
     return Sym(out_kind, r)
 
 
